@@ -1,11 +1,12 @@
 /* C17 contract (boxes): Box<ITV>::contains_integer_point() answers exactly ("integer-point existence queries
- * answer exactly").  Abstract view and harness objects: ../C03/box_base.h. */
+ * answer exactly").  Abstract view and harness objects: ../C03/box_base.h (x is the operand &G_bx). */
 #ifndef VERIF_C17_BOX_INT_H
 #define VERIF_C17_BOX_INT_H
 #include "../C03/box_base.h"
+#define C_b_contains_integer_point_POSTS(R) \
+  POST(exact_answer, ((R) != 0) == (!G_emptyX0 && ALLK(has_int_point(&G_xs[0]), has_int_point(&G_xs[1])))) \
+  POST(x_wf, box_wf(x, G_xs)) POST(x_value_kept, box_sat(x, G_xs) == G_satX0)
 #if defined(VERIF_CBMC)
-_Bool FN_b_contains_integer_point(const BOX_T *x) PRE_BX ASSIGNS(FRAME_B)
-  POST(exact_answer, (RET != 0) == (!G_emptyX0 && ALLK(has_int_point(&G_xs[0]), has_int_point(&G_xs[1]))))
-  POST(x_wf, box_wf(x, G_xs)) POST(x_value_kept, box_sat(x, G_xs) == G_satX0);
+_Bool FN_b_contains_integer_point(const BOX_T *x) PRE_BX ASSIGNS(FRAME_B) C_b_contains_integer_point_POSTS(RET);
 #endif
 #endif
